@@ -6,7 +6,7 @@
 cd "$(dirname "$0")/.."
 R=${VP_RUN_REPO:?needs vp run --with-repo}
 sed -i "s#\"/repo/#\"$R/#" harness/Cargo.toml
-for d in seeded/${1:-*}/; do
+for d in $(for g in ${@:-"*"}; do ls -d seeded/$g/; done); do
   n=$(basename "$d"); [ -f "$d/meta.json" ] || continue
   p=$(python3 -c "import json;print(json.load(open('$d/meta.json'))['breaks_property'])")
   git -C "$R" apply "$PWD/$d/patch.diff" || { echo "OTHER $n $p :: patch does not apply"; continue; }
